@@ -153,7 +153,7 @@ fn broker_packet(t: &[&str]) -> Packet {
 // ---------------------------------------------------------------------------------------------
 // keep-alive scenarios (C18): the real event loop polled continuously ("prompt polling") against a
 // scripted broker, under paused tokio time; every timestamp is virtual ms since the scenario began.
-//   KA <ver> <ka_ms> <delays,..> <silent_from> <none|up|down> <period_ms> <horizon_ms> [<server_keep_alive_s>]
+//   KA <ver> <ka_ms> <delays,..> <silent_from> <none|up|down|full1|full2|coll> <period_ms> <horizon_ms> [<server_keep_alive_s>]
 //      -> KA C@<t> PINGS[<t> ..] RESPS[<t> ..] END <ERROR <kind>|HORIZON>@<t>
 //   KACONN <ver> <timeout_s> <handshake_ms|never>
 //      -> KACONN CONNECTED@<t> | KACONN ERROR <kind>@<t>
@@ -187,15 +187,32 @@ fn ms(start: tokio::time::Instant) -> u64 {
 
 macro_rules! ka_scenario {
     ($name:ident, $netty:ty, $mknet:expr, $client:ty, $evloop:ty, $newclient:expr, $opts:expr, $connack:expr,
-     $is_ping:expr, $pingresp:expr, $down:expr, $up:expr, $is_connack:expr, $err:expr) => {
+     $is_ping:expr, $pingresp:expr, $down:expr, $up:expr, $is_connack:expr, $err:expr,
+     $setinfl:expr, $pub1:expr, $is_pub2:expr, $puback2:expr) => {
         async fn $name(a: KaArgs, next_socket: &Rc<RefCell<Option<DuplexStream>>>) -> String {
+            // traffic full1 / full2: max_inflight 1 / 2 and that many QoS1 publishes the broker never
+            // acknowledges (the window stays full across every keep-alive expiry); coll: max_inflight 2,
+            // three QoS1 publishes, the broker acknowledges id 2 only: the third is parked on id 1
+            let (infl, n_pre): (Option<u16>, u8) = match a.traffic.as_str() {
+                "full1" => (Some(1), 1),
+                "full2" => (Some(2), 2),
+                "coll" => (Some(2), 3),
+                _ => (None, 0),
+            };
             let start = tokio::time::Instant::now();
             let (client_end, broker_end) = tokio::io::duplex(1 << 20);
             *next_socket.borrow_mut() = Some(client_end);
             let mut bn: $netty = $mknet(broker_end);
             let _ = bn.write($connack(a.server_ka)).await;
             let _ = bn.flush().await;
-            let (client, mut el): ($client, $evloop) = $newclient($opts(a.ka_ms));
+            let mut o = $opts(a.ka_ms);
+            if let Some(n) = infl {
+                ($setinfl)(&mut o, n);
+            }
+            let (client, mut el): ($client, $evloop) = $newclient(o);
+            for k in 1..=n_pre {
+                let _ = ($pub1)(&client, k);
+            }
             let pings: RefCell<Vec<u64>> = RefCell::new(vec![]);
             let resps: RefCell<Vec<u64>> = RefCell::new(vec![]);
             let conn_at: RefCell<Option<u64>> = RefCell::new(None);
@@ -228,6 +245,9 @@ macro_rules! ka_scenario {
                                     if a.silent_from == 0 || k < a.silent_from {
                                         due.push_back(t + a.delays[(k - 1) % a.delays.len()]);
                                     }
+                                } else if a.traffic == "coll" && ($is_pub2)(&p) {
+                                    let _ = bn.write($puback2).await;
+                                    let _ = bn.flush().await;
                                 }
                             }
                             Err(_) => std::future::pending::<()>().await,
@@ -321,7 +341,10 @@ ka_scenario!(
     |p: &Packet| matches!(p, Packet::PingReq), Packet::PingResp,
     Packet::Publish(Publish::new("d", QoS::AtMostOnce, vec![1u8])),
     |c: &AsyncClient| c.try_publish("u", QoS::AtMostOnce, false, vec![1u8]),
-    |e: &Event| matches!(e, Event::Incoming(Packet::ConnAck(_))), error_s
+    |e: &Event| matches!(e, Event::Incoming(Packet::ConnAck(_))), error_s,
+    |o: &mut MqttOptions, n: u16| { o.set_inflight(n); },
+    |c: &AsyncClient, k: u8| c.try_publish("u", QoS::AtLeastOnce, false, vec![k]),
+    |p: &Packet| matches!(p, Packet::Publish(x) if x.pkid == 2), Packet::PubAck(PubAck::new(2))
 );
 ka_scenario!(
     ka5, rumqttc::verif::NetworkV5, |s: DuplexStream| rumqttc::verif::NetworkV5::new(s, Some(1 << 20)),
@@ -331,7 +354,11 @@ ka_scenario!(
     rumqttc::v5::mqttbytes::v5::Packet::PingResp(rumqttc::v5::mqttbytes::v5::PingResp),
     rumqttc::v5::mqttbytes::v5::Packet::Publish(rumqttc::v5::mqttbytes::v5::Publish::new("d", rumqttc::v5::mqttbytes::QoS::AtMostOnce, vec![1u8], None)),
     |c: &rumqttc::v5::AsyncClient| c.try_publish("u", rumqttc::v5::mqttbytes::QoS::AtMostOnce, false, vec![1u8]),
-    |e: &rumqttc::v5::Event| matches!(e, rumqttc::v5::Event::Incoming(rumqttc::v5::mqttbytes::v5::Packet::ConnAck(_))), err5
+    |e: &rumqttc::v5::Event| matches!(e, rumqttc::v5::Event::Incoming(rumqttc::v5::mqttbytes::v5::Packet::ConnAck(_))), err5,
+    |o: &mut rumqttc::v5::MqttOptions, n: u16| { o.set_outgoing_inflight_upper_limit(n); },
+    |c: &rumqttc::v5::AsyncClient, k: u8| c.try_publish("u", rumqttc::v5::mqttbytes::QoS::AtLeastOnce, false, vec![k]),
+    |p: &rumqttc::v5::mqttbytes::v5::Packet| matches!(p, rumqttc::v5::mqttbytes::v5::Packet::Publish(x) if x.pkid == 2),
+    rumqttc::v5::mqttbytes::v5::Packet::PubAck(rumqttc::v5::mqttbytes::v5::PubAck::new(2, None))
 );
 
 
